@@ -1,6 +1,6 @@
 #!/usr/bin/env python3
 """
-selftest/neutral.py confirm <source _out dir> <property id>     (scratch worktree only)
+selftest/neutral.py confirm <source _out dir> <property id> [round]   (scratch worktree only)
 selftest/neutral.py run [--all-checks] [name ...]                (applies to /repo's working tree, restores it)
 
 Over-strictness self-test.  selftest/neutral/<name>/patch.diff are changes written by independent
@@ -26,7 +26,7 @@ def sh(cmd, cwd=None, timeout=1800, env=None):
     return p.returncode, p.stdout
 
 
-def confirm(src, prop):
+def confirm(src, prop, rnd=""):
     sh(["git", "-C", REPO, "worktree", "remove", "--force", WT])
     shutil.rmtree(WT, ignore_errors=True)
     rc, out = sh(["git", "-C", REPO, "worktree", "add", "--detach", WT, "HEAD"])
@@ -39,7 +39,7 @@ def confirm(src, prop):
             patch, demo = os.path.join(d, "patch.diff"), os.path.join(d, "demo.rs")
             if not (os.path.isfile(patch) and os.path.isfile(demo)):
                 continue
-            name = "%sn_%s" % (prop, m.replace("neutral_", ""))
+            name = "%sn%s_%s" % (prop, rnd, m.replace("neutral_", ""))
             sh(["git", "checkout", "--", "."], cwd=WT)
             for f in os.listdir(os.path.join(WT, "tests")):
                 if f.startswith("neutral_demo"):
@@ -117,7 +117,7 @@ def run(names, all_checks):
 
 if __name__ == "__main__":
     if len(sys.argv) >= 4 and sys.argv[1] == "confirm":
-        sys.exit(confirm(sys.argv[2], sys.argv[3]))
+        sys.exit(confirm(sys.argv[2], sys.argv[3], sys.argv[4] if len(sys.argv) > 4 else ""))
     if len(sys.argv) >= 2 and sys.argv[1] == "run":
         sys.exit(run([a for a in sys.argv[2:] if not a.startswith("--")], "--all-checks" in sys.argv))
     print(__doc__)
